@@ -487,4 +487,80 @@ theorem lamInv_runN (P : Params) (O : Oracles) (hB : 0 < P.B) (he : ∀ x, 0 < P
       exact lamInv_finish P O hB he hP hlpl _ (inv_runN P O hB he hP n) hgo (lamInv_runN P O hB he hP hlpl n)
     · rw [iter_stop P O _ hgo]; exact lamInv_runN P O hB he hP hlpl n
 
+/-! ### how many oracle calls a run makes, how many classifiers it stores -/
+
+theorem bestH_length_le_succ (hs : List Hyp) (lam : List Rat) (h : Hyp) : (bestH hs lam h).1.length ≤ hs.length + 1 := by
+  rcases bestH_store hs lam h with ⟨h1, _⟩ | ⟨h1, _, _⟩ <;> rw [h1] <;> simp
+
+/-- the multiplier loop makes between 1 (non-empty list) and `len(list)` oracle calls and stores at most one classifier
+    per call -/
+theorem evalLoop_calls (X : Ctx) (O : Nat → Hyp) (lamHat : List Rat) : ∀ (ms : List Rat) (hs : List Hyp) (k : Nat)
+    (r : GapRes), (evalLoop X O lamHat ms hs k r).2.1 ≤ k + ms.length ∧ k ≤ (evalLoop X O lamHat ms hs k r).2.1 ∧
+      (evalLoop X O lamHat ms hs k r).1.length + k ≤ hs.length + (evalLoop X O lamHat ms hs k r).2.1
+  | [], _, _, _ => ⟨by simp [evalLoop], by simp [evalLoop], by simp [evalLoop]⟩
+  | mul :: ms, hs, k, r => by
+    have hb := bestH_length_le_succ hs (lamHat.map (fun x => mul * x)) (O k)
+    unfold evalLoop
+    simp only []
+    split
+    · refine ⟨?_, ?_, ?_⟩ <;> dsimp only [List.length_cons] <;> omega
+    · obtain ⟨h1, h2, h3⟩ := evalLoop_calls X O lamHat ms (bestH hs (lamHat.map (fun x => mul * x)) (O k)).1 (k + 1)
+        (updLow r (lagr (tableOf X.c (bestH hs (lamHat.map (fun x => mul * x)) (O k)).1)
+          (unit (bestH hs (lamHat.map (fun x => mul * x)) (O k)).2) (projLam X lamHat)))
+      refine ⟨by simp only [List.length_cons]; omega, by omega, by omega⟩
+
+theorem evalGap_calls (X : Ctx) (O : Nat → Hyp) (hs : List Hyp) (k : Nat) (Q lamHat : List Rat) :
+    (evalGap X O hs k Q lamHat).2.1 ≤ k + EGGen.muls.length ∧ k ≤ (evalGap X O hs k Q lamHat).2.1 ∧
+    (evalGap X O hs k Q lamHat).1.length + k ≤ hs.length + (evalGap X O hs k Q lamHat).2.1 := by
+  unfold evalGap
+  exact evalLoop_calls X O lamHat EGGen.muls hs k _
+
+theorem solveLP_calls (P : Params) (O : Oracles) (s : State) :
+    (solveLP P O s).1.calls ≤ s.calls + EGGen.muls.length ∧ s.calls ≤ (solveLP P O s).1.calls ∧
+    (solveLP P O s).1.hs.length + s.calls ≤ s.hs.length + (solveLP P O s).1.calls := by
+  unfold solveLP
+  split
+  · exact ⟨by simp, le_refl _, le_refl _⟩
+  · exact evalGap_calls P.ctx O.h s.hs s.calls _ _
+
+theorem decision_calls (P : Params) (O : Oracles) (s : State) :
+    (decision P O s).s2.calls ≤ s.calls + (1 + 2 * EGGen.muls.length) ∧
+    (decision P O s).s2.hs.length + s.calls ≤ s.hs.length + (decision P O s).s2.calls := by
+  have hb := bestH_length_le_succ s.hs (lamVec P s.theta) (O.h s.calls)
+  obtain ⟨e1, e2, e3⟩ := evalGap_calls P.ctx O.h (bestH s.hs (lamVec P s.theta) (O.h s.calls)).1 (s.calls + 1)
+    (normalise (bump s.qsum (bestH s.hs (lamVec P s.theta) (O.h s.calls)).2))
+    (meanCols P.c.length (s.lamCols ++ [lamVec P s.theta]))
+  unfold decision
+  split
+  · refine ⟨?_, ?_⟩ <;> dsimp only <;> omega
+  · simp only []
+    obtain ⟨l1, l2, l3⟩ := solveLP_calls P O
+      { s with
+        hs := (evalGap P.ctx O.h (bestH s.hs (lamVec P s.theta) (O.h s.calls)).1 (s.calls + 1)
+          (normalise (bump s.qsum (bestH s.hs (lamVec P s.theta) (O.h s.calls)).2))
+          (meanCols P.c.length (s.lamCols ++ [lamVec P s.theta]))).1,
+        calls := (evalGap P.ctx O.h (bestH s.hs (lamVec P s.theta) (O.h s.calls)).1 (s.calls + 1)
+          (normalise (bump s.qsum (bestH s.hs (lamVec P s.theta) (O.h s.calls)).2))
+          (meanCols P.c.length (s.lamCols ++ [lamVec P s.theta]))).2.1 }
+    dsimp only at l1 l2 l3
+    refine ⟨?_, ?_⟩ <;> omega
+
+/-- `n_oracle_calls_ <= (1 + 2 len(multiplier list)) * iterations` and at most one classifier is stored per call -/
+theorem calls_runN (P : Params) (O : Oracles) : ∀ n,
+    (runN P O n).calls ≤ (1 + 2 * EGGen.muls.length) * (runN P O n).t ∧ (runN P O n).hs.length ≤ (runN P O n).calls
+  | 0 => by simp [runN, initState]
+  | n + 1 => by
+    obtain ⟨ih1, ih2⟩ := calls_runN P O n
+    show (iter P O (runN P O n)).calls ≤ _ * (iter P O (runN P O n)).t ∧
+      (iter P O (runN P O n)).hs.length ≤ (iter P O (runN P O n)).calls
+    cases hgo : ((runN P O n).done || decide (P.maxIter ≤ (runN P O n).t))
+    · rw [iter_go P O _ hgo]
+      obtain ⟨d1, d2⟩ := decision_calls P O (runN P O n)
+      show (decision P O (runN P O n)).s2.calls ≤ _ * ((runN P O n).t + 1) ∧
+        (decision P O (runN P O n)).s2.hs.length ≤ (decision P O (runN P O n)).s2.calls
+      constructor
+      · rw [Nat.mul_add, Nat.mul_one]; omega
+      · omega
+    · rw [iter_stop P O _ hgo]; exact ⟨ih1, ih2⟩
+
 end EGLoop
